@@ -305,9 +305,11 @@ func (f *Frame) execLoopInv(sh *loopShape, spec *LoopSpec, st *State) []Outcome 
 		if sh.prefix != nil {
 			sh.prefix(yes)
 		}
+		nHead := len(yes.hyps) // loop-head facts + loop condition + range bindings
 		for _, o := range f.execBlock(sh.body.List, yes) {
 			switch {
 			case o.Kind == ONormal, o.Kind == OContinue && f.matchLabel(o, sh):
+				nBody := len(o.St.hyps)
 				for i, a := range spec.Asserts {
 					env := f.specEnvAt(o.St, sh.body.End()-1)
 					env.pre = head
@@ -319,6 +321,15 @@ func (f *Frame) execLoopInv(sh *loopShape, spec *LoopSpec, st *State) []Outcome 
 					for i, inv := range spec.Invariants {
 						goal := envFor(ps).evalBool(inv.E)
 						f.oblige(ps, "loopinv", fmt.Sprintf("%s#loop%d.inv:%d.preserve", f.key, sh.ord, i+1), sh.pos, goal, inv.Text)
+						if spec.Summarize && len(spec.Asserts) > 0 && nBody >= nHead && !goal.IsTrue() {
+							// the loop asserts summarise the body: preservation is proved from the
+							// loop-head facts, the asserts and the post statement only (dropping the
+							// body's own hypotheses is sound and keeps the obligation small)
+							ob := in.obls[len(in.obls)-1]
+							hy := append([]Term(nil), ps.hyps[:nHead]...)
+							hy = append(hy, ps.hyps[nBody:]...)
+							ob.Hyps = hy
+						}
 					}
 				}
 			case o.Kind == OBreak && f.matchLabel(o, sh):
